@@ -471,6 +471,12 @@ def b_tuple(ex, path, ca, node):
     v = ca.pos[0]
     if isinstance(v, T):
         return [(path, v)]
+    if isinstance(v, O) and split_generic(v.cls)[0] == "list":
+        # tuple(list): an immutable snapshot with the same items
+        t = path.alloc(v.cls, "tup")
+        path.store("list.arr", t.e, path.sel("list.arr", v.e))
+        path.store("list.len", t.e, path.sel("list.len", v.e))
+        return [(path, t)]
     raise Unsupported("tuple(iterable)")
 
 
@@ -804,3 +810,31 @@ BUILTINS["warnings.warn"] = _warn
 GLOBAL_NAMES["warnings.warn"] = Py(("builtin", "warnings.warn"))
 GLOBAL_NAMES["UserWarning"] = Py(("const", "UserWarning"))
 GLOBAL_NAMES["DeprecationWarning"] = Py(("const", "DeprecationWarning"))
+
+
+@builtin("chain")
+def b_chain(ex, path, ca, node):
+    """itertools.chain(a, b): a fresh iterator over the items of a, then the remaining items of b
+    (b itself is not advanced in this model: the repo never uses b again afterwards)."""
+    USED_MODELS.add("itertools.chain")
+    if len(ca.pos) != 2:
+        raise Unsupported("chain() of other than two iterables")
+    a, b = ca.pos
+    sva, svb = ex.seq_view(path, a, node), ex.seq_view(path, b, node)
+    if sva[0] != "unroll" or svb[0] == "unroll":
+        raise Unsupported("chain(<symbolic>, ...) / chain(..., <tuple>)")
+    items = sva[1]
+    elem, n, et = svb
+    it = path.alloc(f"iter[{et}]", "chain")
+    arr = fresh("chain_arr", z3.ArraySort(Int, Int))
+    m = len(items)
+    for k, x in enumerate(items):
+        path.assume(z3.Select(arr, k) == ref_of(x))
+    kk = fresh("k", Int)
+    path.assume(n >= 0)
+    path.assume(z3.ForAll([kk], z3.Implies(z3.And(kk >= m, kk < m + n), z3.Select(arr, kk) == elem(kk - m)),
+                          patterns=[z3.Select(arr, kk)]))
+    path.store("iter.arr", it.e, arr)
+    path.store("iter.len", it.e, m + n)
+    path.store("iter.pos", it.e, z3.IntVal(0))
+    return [(path, it)]
